@@ -1,4 +1,5 @@
 import ActixModel.Proofs.Route
+import ActixModel.Proofs.RouteMini
 /-
 C09 — app routing picks the first registered match and exposes exactly its parameters.
 
@@ -62,7 +63,7 @@ def ChosenPath (matchPat : Matcher Pat) (app : App Pat) (req : Req) (steps : Lis
     Complete matchPat req app.children steps st'
 
 /-- the router's outcome comes with a chosen path, and its ending is as `Ends` says -/
-theorem chosen_exists (matchPat : Matcher Pat) (app : App Pat) (req : Req) :
+theorem C09_chosen_exists (matchPat : Matcher Pat) (app : App Pat) (req : Req) :
     ∃ steps, ChosenPath matchPat app req steps (routeApp matchPat app req).st ∧
       Ends matchPat req (.sc app.children) (effDefault app.dflt .notFound) steps
         (routeApp matchPat app req) := by
@@ -75,16 +76,16 @@ theorem C09_path_unique (matchPat : Matcher Pat) (app : App Pat) (req : Req) :
     ∃ steps, ChosenPath matchPat app req steps (routeApp matchPat app req).st ∧
       ∀ steps' st', ChosenPath matchPat app req steps' st' →
         steps' = steps ∧ st' = (routeApp matchPat app req).st := by
-  obtain ⟨steps, hc, _⟩ := chosen_exists matchPat app req
+  obtain ⟨steps, hc, _⟩ := C09_chosen_exists matchPat app req
   exact ⟨steps, hc, fun steps' st' hc' => walk_unique hc'.1 hc'.2 hc.1 hc.2⟩
 
 /-- any chosen path is *the* path the router took, with the router's ending -/
-theorem chosen_ends {matchPat : Matcher Pat} {app : App Pat} {req : Req} {steps : List (Step Pat)}
+theorem C09_chosen_ends {matchPat : Matcher Pat} {app : App Pat} {req : Req} {steps : List (Step Pat)}
     {st' : St} (h : ChosenPath matchPat app req steps st') :
     st' = (routeApp matchPat app req).st ∧
       Ends matchPat req (.sc app.children) (effDefault app.dflt .notFound) steps
         (routeApp matchPat app req) := by
-  obtain ⟨steps0, hc, he⟩ := chosen_exists matchPat app req
+  obtain ⟨steps0, hc, he⟩ := C09_chosen_exists matchPat app req
   obtain ⟨e1, e2⟩ := walk_unique h.1 h.2 hc.1 hc.2
   subst e1
   exact ⟨e2, he⟩
@@ -104,7 +105,7 @@ theorem C09_params_exact (matchPat : Matcher Pat) (app : App Pat) (req : Req)
     out.st.ids = steps.map (·.idx) ∧
     ∀ pre s post, steps = pre ++ s :: post →
       matchPat s.node.pat s.node.isPrefix (req.path.drop (lensOf pre)) = some (s.len, s.caps) := by
-  obtain ⟨e, _⟩ := chosen_ends h
+  obtain ⟨e, _⟩ := C09_chosen_ends h
   subst e
   obtain ⟨h1, h2, _, h4⟩ := walk_state h.1
   simp only [St.init, Nat.zero_add, List.nil_append] at h1 h2 h4
@@ -123,7 +124,7 @@ theorem C09_data_innermost (matchPat : Matcher Pat) (app : App Pat) (req : Req)
     let out := routeApp matchPat app req
     out.st.data = app.data.toList ++ steps.filterMap (·.node.data) ∧
     lookupData out = (app.data.toList ++ steps.filterMap (·.node.data)).getLast? := by
-  obtain ⟨e, _⟩ := chosen_ends h
+  obtain ⟨e, _⟩ := C09_chosen_ends h
   subst e
   obtain ⟨_, _, h3, _⟩ := walk_state h.1
   simp only [St.init] at h3
@@ -159,7 +160,7 @@ theorem C09_handler (matchPat : Matcher Pat) (app : App Pat) (req : Req)
     (routeApp matchPat app req).target = .handler hid ↔
       ∃ s pat gs data routes dflt, steps.getLast? = some s ∧
         s.node = .resource pat gs data routes dflt ∧ firstRoute req routes = some hid := by
-  obtain ⟨_, he⟩ := chosen_ends h
+  obtain ⟨_, he⟩ := C09_chosen_ends h
   unfold Ends finalLevel at he
   constructor
   · intro ht
@@ -208,7 +209,7 @@ theorem C09_default_nearest (matchPat : Matcher Pat) (app : App Pat) (req : Req)
     (steps : List (Step Pat)) (st' : St) (h : ChosenPath matchPat app req steps st')
     (hnot : ∀ hid, (routeApp matchPat app req).target ≠ .handler hid) :
     (routeApp matchPat app req).target = finalFallback (effDefault app.dflt .notFound) steps := by
-  obtain ⟨_, he⟩ := chosen_ends h
+  obtain ⟨_, he⟩ := C09_chosen_ends h
   unfold Ends at he
   cases hl : finalLevel (.sc app.children) steps with
   | res routes =>
@@ -236,7 +237,6 @@ theorem C09_default_nearest_scope (fb0 : Target) (pre : List (Step Pat)) (s : St
   | cons t ts ih =>
     obtain ⟨p, g, dt, c, ht⟩ := hpost t (by simp)
     rw [List.foldl_cons, ht]
-    simp only [fallback, effDefault]
     exact ih (fun x hx => hpost x (by simp [hx]))
 
 /-- … and the app's default when no scope on the path has one -/
@@ -259,7 +259,7 @@ theorem C09_405 (matchPat : Matcher Pat) (app : App Pat) (req : Req)
     (routeApp matchPat app req).target = .notAllowed ↔
       ∃ s pat gs data routes, steps.getLast? = some s ∧
         s.node = .resource pat gs data routes none ∧ ∀ r ∈ routes, ¬ GuardsOk req r.guards := by
-  obtain ⟨_, he⟩ := chosen_ends h
+  obtain ⟨_, he⟩ := C09_chosen_ends h
   unfold Ends finalLevel at he
   have hfb0 : effDefault app.dflt .notFound ≠ .notAllowed := by
     cases hd : app.dflt <;> simp [effDefault]
@@ -300,4 +300,250 @@ theorem C09_405 (matchPat : Matcher Pat) (app : App Pat) (req : Req)
     rw [he, finalFallback_last_resource _ hl hn]
     simp [effDefault]
 
+
+/-! ## registration order -/
+
+/-- **C09_append_stable**: registering further services *after* the existing ones never changes how
+a request is answered that some existing top-level service matches (earlier registrations win). -/
+theorem C09_append_stable (matchPat : Matcher Pat) (app : App Pat) (req : Req)
+    (extra : List (Node Pat))
+    (h : ∃ c ∈ app.children, ¬ Rejects matchPat req c (St.init app)) :
+    routeApp matchPat { app with children := app.children ++ extra } req =
+      routeApp matchPat app req := by
+  unfold routeApp
+  have hi : St.init { app with children := app.children ++ extra } = St.init app := rfl
+  simp only [hi]
+  rw [routeList_append]
+  cases hl : routeList matchPat req app.children (St.init app) (effDefault app.dflt .notFound) 0 with
+  | some o => rfl
+  | none =>
+    obtain ⟨c, hc, hr⟩ := h
+    exact absurd (routeList_eq_none.1 hl c hc) hr
+
+/-- … and a request no existing top-level service matches is routed among the new ones exactly as
+if they were alone, except that their indices continue the numbering -/
+theorem C09_append_fallthrough (matchPat : Matcher Pat) (app : App Pat) (req : Req)
+    (extra : List (Node Pat))
+    (h : ∀ c ∈ app.children, Rejects matchPat req c (St.init app)) :
+    routeApp matchPat { app with children := app.children ++ extra } req =
+      match routeList matchPat req extra (St.init app) (effDefault app.dflt .notFound)
+          app.children.length with
+      | some o => o
+      | none => ⟨effDefault app.dflt .notFound, St.init app⟩ := by
+  unfold routeApp
+  have hi : St.init { app with children := app.children ++ extra } = St.init app := rfl
+  simp only [hi]
+  rw [routeList_append, routeList_eq_none.2 h]
+  simp only [Nat.zero_add]
+  cases routeList matchPat req extra (St.init app) (effDefault app.dflt .notFound)
+    app.children.length <;> rfl
+
+/-- **C09_later_irrelevant**: once a service matches, nothing registered after it on the same level
+is ever consulted — the outcome is that service's answer whatever follows it. -/
+theorem C09_later_irrelevant (matchPat : Matcher Pat) (app : App Pat) (req : Req)
+    (pre : List (Node Pat)) (c : Node Pat) (post post' : List (Node Pat)) (len : Nat) (caps : List Cap)
+    (hch : app.children = pre ++ c :: post)
+    (hpre : ∀ c' ∈ pre, Rejects matchPat req c' (St.init app))
+    (hm : Matches matchPat req c (St.init app) len caps) :
+    routeApp matchPat app req = routeApp matchPat { app with children := pre ++ c :: post' } req := by
+  have hi : St.init { app with children := pre ++ c :: post' } = St.init app := rfl
+  unfold routeApp
+  simp only [hi]
+  rw [routeList_eq_some.2 ⟨pre, c, post, len, caps, hch, hpre, hm, rfl⟩,
+    routeList_eq_some.2 ⟨pre, c, post', len, caps, rfl, hpre, hm, rfl⟩]
+
+/-- **C09_route_sugar**: `App::route(path, route)` registers a resource guarded by the route's
+guards whose only route is unguarded — once entered it always reaches the handler; a guard
+mismatch makes the router pass on to later registrations instead of answering 405. -/
+theorem C09_route_sugar (matchPat : Matcher Pat) (req : Req) (pat : Pat) (r : Route) (st : St)
+    (inh : Target) :
+    serve matchPat req (routeSugar pat r) st inh = ⟨.handler r.handler, st⟩ ∧
+    (¬ GuardsOk req r.guards → Rejects matchPat req (routeSugar pat r) st) := by
+  constructor
+  · simp [routeSugar, serve, firstRoute, evalAll]
+  · intro hg len caps hm
+    exact hg hm.2
+
+/-- **C09_dfs_first**: "searching depth-first in registration order".  When a handler answers, the
+route that answers is the *first*, in depth-first registration order (lexicographic order on
+the index path `resource_path ++ [route position]`), among all routes of the table that are
+reachable through services whose patterns match successively and whose guards — on every level
+and on the route itself — accept (`Chain`: no first-match requirement).  (The converse needs
+commitment: see the example after `exApp`, where such a chain exists but an earlier-registered
+scope has committed and answers with its default.) -/
+theorem C09_dfs_first (matchPat : Matcher Pat) (app : App Pat) (req : Req)
+    (steps : List (Step Pat)) (st' : St) (h : ChosenPath matchPat app req steps st')
+    (s : Step Pat) (pat : Pat) (gs : List Guard) (data : Option Nat) (routes : List Route)
+    (dflt : Option Nat) (k : Nat)
+    (hl : steps.getLast? = some s) (hs : s.node = .resource pat gs data routes dflt)
+    (hk : firstRouteIdx req routes 0 = some k)
+    (c : List (Step Pat)) (st₂ : St) (t : Step Pat) (pat' : Pat) (gs' : List Guard)
+    (data' : Option Nat) (routes' : List Route) (dflt' : Option Nat) (j : Nat) (r : Route)
+    (hc : Chain matchPat req app.children (St.init app) c st₂)
+    (hcl : c.getLast? = some t) (ht : t.node = .resource pat' gs' data' routes' dflt')
+    (hj : routes'[j]? = some r) (hr : GuardsOk req r.guards) :
+    LexLe (steps.map (·.idx) ++ [k]) (c.map (·.idx) ++ [j]) :=
+  walk_dfs_minimal h.1 hc hl hcl hs ht hk hj hr
+
+/-- … and that first position is where the answering handler is registered -/
+theorem C09_dfs_first_handler (matchPat : Matcher Pat) (app : App Pat) (req : Req)
+    (steps : List (Step Pat)) (st' : St) (h : ChosenPath matchPat app req steps st')
+    (s : Step Pat) (pat : Pat) (gs : List Guard) (data : Option Nat) (routes : List Route)
+    (dflt : Option Nat) (k : Nat)
+    (hl : steps.getLast? = some s) (hs : s.node = .resource pat gs data routes dflt)
+    (hk : firstRouteIdx req routes 0 = some k) :
+    ∃ r, routes[k]? = some r ∧ (routeApp matchPat app req).target = .handler r.handler := by
+  obtain ⟨r, hr, _, _, hf⟩ := firstRouteIdx_spec hk
+  refine ⟨r, by simpa using hr, ?_⟩
+  exact (C09_handler matchPat app req steps st' h r.handler).2 ⟨s, pat, gs, data, routes, dflt, hl, hs, hf⟩
+
+/-! ## segment boundaries -/
+
+/-- **C09_segment_boundary**: for every matcher whose prefix mode ends at a segment boundary
+(`PrefixBoundary`: the pattern language of C10), every scope on the chosen path leaves an unmatched
+rest that is empty or starts with `/` — children are always matched at a segment boundary. -/
+theorem C09_segment_boundary (matchPat : Matcher Pat) (law : PrefixBoundary matchPat)
+    (app : App Pat) (req : Req) (steps : List (Step Pat)) (st' : St)
+    (h : ChosenPath matchPat app req steps st')
+    (pre : List (Step Pat)) (s : Step Pat) (post : List (Step Pat))
+    (hs : steps = pre ++ s :: post) (hscope : s.node.isPrefix = true) :
+    req.path.drop (lensOf pre + s.len) = [] ∨
+      (req.path.drop (lensOf pre + s.len)).head? = some '/' := by
+  have hm := (C09_params_exact matchPat app req steps st' h).2.2.2.2 pre s post hs
+  rw [hscope] at hm
+  have := law _ _ _ _ hm
+  simpa [List.drop_drop] using this
+
+/-- **C09_resource_consumes**: for every matcher whose full mode consumes its input (`FullMatch`), a
+request answered through a resource (handler, resource default or 405) has no unprocessed path
+left. -/
+theorem C09_resource_consumes (matchPat : Matcher Pat) (law : FullMatch matchPat)
+    (app : App Pat) (req : Req) (steps : List (Step Pat)) (st' : St)
+    (h : ChosenPath matchPat app req steps st') (s : Step Pat)
+    (hl : steps.getLast? = some s) (hres : s.node.isPrefix = false) :
+    unprocessed req (routeApp matchPat app req).st = [] := by
+  obtain ⟨init, rfl⟩ : ∃ init, steps = init ++ [s] := by
+    rcases List.eq_nil_or_concat steps with rfl | ⟨init, x, rfl⟩
+    · simp at hl
+    · simp at hl; exact ⟨init, by simp [hl]⟩
+  obtain ⟨hskip, _, _, _, hmatch⟩ := C09_params_exact matchPat app req _ st' h
+  have hm := hmatch init s [] rfl
+  rw [hres] at hm
+  have := law _ _ _ _ hm
+  simp only [unprocessed, hskip, lensOf, List.map_append, List.sum_append, List.map_cons,
+    List.map_nil, List.sum_cons, List.sum_nil, Nat.add_zero]
+  simpa [List.drop_drop, lensOf] using this
+
+/-- the stand-in matcher of the driver satisfies both laws (non-vacuity of the two theorems above) -/
+theorem C09_mini_laws :
+    PrefixBoundary RouteMini.miniMatch ∧ FullMatch RouteMini.miniMatch :=
+  ⟨RouteMini.miniMatch_prefixBoundary, RouteMini.miniMatch_fullMatch⟩
+
+/-- **C09_boundary**: percent-decoding never moves a segment boundary.  For every `requote` that
+copies a literal `/` and decodes independently on both sides of it, and never decodes anything
+*to* a `/` (`SlashLaw`: `%2F` stays encoded — C10 proves this of `Quoter::requote` for every
+protected set containing `/`), the segments of the decoded path are the decoded segments of the
+raw path: same number, same order, none merged or split. -/
+theorem C09_boundary (rq : Chars → Chars) (law : RouteMini.SlashLaw rq) (raw : Chars) :
+    RouteMini.splitSlash (rq raw) = (RouteMini.splitSlash raw).map rq :=
+  RouteMini.split_requote law raw
+
+/-- … in particular the number of segments (of literal `/`) is unchanged -/
+theorem C09_boundary_count (rq : Chars → Chars) (law : RouteMini.SlashLaw rq) (raw : Chars) :
+    (RouteMini.splitSlash (rq raw)).length = (RouteMini.splitSlash raw).length := by
+  rw [C09_boundary rq law raw, List.length_map]
+
+/-- the modelled `Quoter::requote` (protected `%/+`, as in `url.rs`) satisfies the law, so the
+theorem applies to the model the correspondence runs against the code -/
+theorem C09_boundary_quoter (raw : Chars) :
+    RouteMini.splitSlash (RouteMini.requote raw) =
+      (RouteMini.splitSlash raw).map RouteMini.requote :=
+  C09_boundary _ RouteMini.requote_law raw
+
+/-! ## registration -/
+
+/-- `ensure_leading_slash` / `insert_slash` (`register`): a registered pattern is empty or starts
+with `/`, and registering is idempotent -/
+theorem C09_register_slash (p : Chars) :
+    (RouteMini.ensureLeadingSlash p = [] ∨ (RouteMini.ensureLeadingSlash p).head? = some '/') ∧
+    RouteMini.ensureLeadingSlash (RouteMini.ensureLeadingSlash p) = RouteMini.ensureLeadingSlash p := by
+  unfold RouteMini.ensureLeadingSlash
+  cases p with
+  | nil => simp
+  | cons c rest =>
+    by_cases hc : c = '/'
+    · subst hc; simp
+    · constructor
+      · right
+        split <;> simp_all
+      · split <;> simp_all
+
+/-! ## concrete instances (kernel-evaluated): hypotheses are satisfiable, statements non-trivial -/
+
+section Examples
+open RouteMini
+
+/-- `app d=1 df=9 { s:/a d=2 df=7 { s:/b { r:/{id} ( GET>1 POST>2 ) } }  r:/{t}* ( *>3 ) }` -/
+def exApp : App MiniPat :=
+  { data := some 1
+    dflt := some 9
+    children :=
+      [ .scope [[.lit ['/', 'a']]] [] (some 2)
+          [ .scope [[.lit ['/', 'b']]] [] none
+              [ .resource [[.lit ['/'], .var "id"]] [] none
+                  [⟨[.method "GET"], 1⟩, ⟨[.method "POST"], 2⟩] none ] none ] (some 7),
+        .resource [[.lit ['/'], .rest "t"]] [] none [⟨[], 3⟩] none ] }
+
+def exReq (m : String) (raw : Chars) : Req := { method := m, path := requote raw, headers := [] }
+
+/-- the patterns above are what `parsePattern` yields -/
+example : parsePattern ['/', '{', 'i', 'd', '}'] = [.lit ['/'], .var "id"] ∧
+    parsePattern ['/', '{', 't', '}', '*'] = [.lit ['/'], .rest "t"] := by decide +kernel
+
+/-- `POST /a/b/x%2Fy`: first match, parameters with offsets into the full path, innermost data -/
+example : routeApp miniMatch exApp (exReq "POST" ['/', 'a', '/', 'b', '/', 'x', '%', '2', 'F', 'y']) =
+    ⟨.handler 2, ⟨10, [("id", 5, 10)], [1, 2], [0, 0, 0]⟩⟩ := by decide +kernel
+example : matchInfo (exReq "POST" ['/', 'a', '/', 'b', '/', 'x', '%', '2', 'F', 'y'])
+      (routeApp miniMatch exApp (exReq "POST" ['/', 'a', '/', 'b', '/', 'x', '%', '2', 'F', 'y'])) =
+    [("id", ['x', '%', '2', 'F', 'y'])] := by decide +kernel
+/-- `GET /a/b/x/y`: commitment + nearest default — never offered to the later tail resource; the
+inner scope has no default, the enclosing scope's one answers, with the scope's data -/
+example : routeApp miniMatch exApp (exReq "GET" ['/', 'a', '/', 'b', '/', 'x', '/', 'y']) =
+    ⟨.dflt 7, ⟨4, [], [1, 2], [0, 0]⟩⟩ := by decide +kernel
+/-- … although a chain of matching services to the tail resource's route exists for that request
+(commitment: "first registered match" is decided level by level) -/
+example : ∃ c st₂ t, Chain miniMatch (exReq "GET" ['/', 'a', '/', 'b', '/', 'x', '/', 'y']) exApp.children
+    (St.init exApp) c st₂ ∧ c.getLast? = some t ∧ t.idx = 1 ∧ t.node.isPrefix = false := by
+  refine ⟨[⟨.resource [[.lit ['/'], .rest "t"]] [] none [⟨[], 3⟩] none, 1, 8, [("t", 1, 8)]⟩], _,
+    _, Chain.cons _ rfl ⟨by decide +kernel, by intro g hg; cases hg⟩ Chain.nil, rfl, rfl, rfl⟩
+/-- `PUT /a/b/x`: 405 — matched resource, no route for the method, no registered resource default -/
+example : (routeApp miniMatch exApp (exReq "PUT" ['/', 'a', '/', 'b', '/', 'x'])).target = .notAllowed := by
+  decide +kernel
+/-- `GET /a%2Fb/x`: `%2F` is not a boundary, the request is not inside scope `/a` -/
+example : (routeApp miniMatch exApp (exReq "GET" ['/', 'a', '%', '2', 'F', 'b', '/', 'x'])).target = .handler 3 := by
+  decide +kernel
+/-- `GET /%61/b/5`: `%61` is decoded to `a` before matching -/
+example : (routeApp miniMatch exApp (exReq "GET" ['/', '%', '6', '1', '/', 'b', '/', '5'])).target = .handler 1 := by
+  decide +kernel
+/-- a chosen path exists for every request (the hypothesis of the path theorems); here it has
+three steps -/
+example : ∃ steps st', ChosenPath miniMatch exApp (exReq "GET" ['/', 'a', '/', 'b', '/', '5']) steps st' ∧
+    steps.length = 3 := by
+  obtain ⟨steps, hc, _⟩ := C09_path_unique miniMatch exApp (exReq "GET" ['/', 'a', '/', 'b', '/', '5'])
+  refine ⟨steps, _, hc, ?_⟩
+  have h4 := (C09_params_exact miniMatch exApp _ steps _ hc).2.2.2.1
+  have hl : (routeApp miniMatch exApp (exReq "GET" ['/', 'a', '/', 'b', '/', '5'])).st.ids = [0, 0, 0] := by
+    decide +kernel
+  rw [hl] at h4
+  have := congrArg List.length h4
+  simpa using this.symm
+
+/-- hypothesis of `C09_append_stable` / `C09_later_irrelevant`: for `GET /a/b/5` the first top-level
+service (scope `/a`) matches, so anything registered after it is irrelevant -/
+example : ∃ c ∈ exApp.children,
+    ¬ Rejects miniMatch (exReq "GET" ['/', 'a', '/', 'b', '/', '5']) c (St.init exApp) := by
+  refine ⟨_, List.mem_cons_self, fun h => h 2 [] ⟨by decide +kernel, ?_⟩⟩
+  intro g hg; cases hg
+
+end Examples
 end ActixModel.Route.C09
